@@ -186,7 +186,9 @@ def run_program(pr):
             res["state_before"] = state_before
             res["state_after"] = p._txn_manager.state.name
             res["txn_partitions"] = sorted(tp.partition for tp in p._txn_manager._txn_partitions)
-            res["group_added"] = p._txn_manager._txn_consumer_group is not None
+            tm_ = p._txn_manager
+            res["group_added"] = bool(tm_._txn_consumer_groups) if hasattr(tm_, "_txn_consumer_groups") \
+                else tm_._txn_consumer_group is not None
             # the error stored for commit_transaction() to re-raise (TransactionManager._transaction_waiter)
             w = p._txn_manager._transaction_waiter
             we = w.exception() if (w is not None and w.done() and not w.cancelled()) else None
